@@ -41,6 +41,7 @@ Definition rval_eqb (a b : rval) : bool :=
   | RInt x, RInt y => Z.eqb x y
   | RChar x, RChar y => x =? y
   | RStr x, RStr y => key_eqb x y
+  | RFloat x, RFloat y => Z.eqb x y
   | _, _ => false
   end.
 
